@@ -490,3 +490,32 @@ Proof.
   intros P C s. unfold receive at 1 2 4. cbn [p_cancel with_cancel]. rewrite C. intros B.
   unfold receive. rewrite C. exact (recv_blocked_released P C s 0 0 B).
 Qed.
+
+Lemma nodup_app_l {A} : forall a b : list A, NoDup (a ++ b) -> NoDup a.
+Proof.
+  induction a as [|x a IH]; intros b H; [constructor|]. cbn in H. inversion H as [|y l N D]; subst.
+  constructor; [|exact (IH b D)]. intros I. apply N. apply in_or_app. left. exact I.
+Qed.
+
+Lemma nth_error_firstn_lt {A} : forall n k (l : list A), k < n -> nth_error (firstn n l) k = nth_error l k.
+Proof.
+  induction n as [|n IH]; intros k l H; [lia|]. destruct l as [|x l]; [destruct k; reflexivity|].
+  destruct k as [|k]; [reflexivity|]. cbn. apply IH. lia.
+Qed.
+
+(* "exactly once": if the frames of the history are pairwise distinct, no frame is processed twice *)
+Lemma receive_frames_nodup : forall P s, NoDup (frames_of s) -> NoDup (o_frames (receive P s)).
+Proof.
+  intros P s H. rewrite receive_frames.
+  rewrite <- (firstn_skipn (o_reads (receive P s)) s) in H. unfold frames_of in *.
+  rewrite flat_map_app in H. exact (nodup_app_l _ _ H).
+Qed.
+
+(* ... and every frame that was read is processed *)
+Lemma receive_frames_all : forall P s id k perr,
+  nth_error s k = Some (SFrame id perr) -> k < o_reads (receive P s) -> In id (o_frames (receive P s)).
+Proof.
+  intros P s id k perr N L. rewrite receive_frames. unfold frames_of. apply in_flat_map.
+  exists (SFrame id perr). split; [|left; reflexivity].
+  apply nth_error_In with k. rewrite (nth_error_firstn_lt _ _ _ L). exact N.
+Qed.
